@@ -29,7 +29,7 @@ var pureStdFuncs = map[string]bool{
 	"bytes.Equal": true, "bytes.HasPrefix": true, "bytes.HasSuffix": true, "bytes.IndexByte": true, "bytes.Index": true, "bytes.TrimSpace": true, "bytes.Contains": true,
 	"(*regexp.Regexp).MatchString": true, "(*regexp.Regexp).String": true, "(*regexp.Regexp).FindStringSubmatch": true,
 	"(*strings.Builder).String": true, "(*strings.Builder).Len": true,
-	"(error).Error": true,
+	"(error).Error":      true,
 	"(*sync.Mutex).Lock": true, "(*sync.Mutex).Unlock": true, "(*sync.RWMutex).RLock": true, "(*sync.RWMutex).RUnlock": true,
 	"path/filepath.Base": true, "path/filepath.Ext": true, "path/filepath.Dir": true, "path/filepath.Clean": true, "path/filepath.Join": true, "path/filepath.IsAbs": true, "path/filepath.ToSlash": true,
 	"net/url.PathEscape": true, "net/url.QueryEscape": true,
